@@ -1,6 +1,7 @@
 // C01 / C02 harness (enqueue container): replays every edge of the TaskStream.tla state graph on a REAL r1::task_stream<front_accessor> with 2 lanes
 // (white box), one tracked access per step, comparing (population, lane mutex flags) after every step; Push / Got events for TraceTaskPool-style validation.
-//   h_taskstream <schedules> <trace-out> <pushN of pusher 1> <pushN of pusher 2> <popN>
+//   h_taskstream <schedules> <trace-out> <pushN of pusher 1> <pushN of pusher 2> <popN> [<accessor f|b> <tag of pusher 1> <tag of pusher 2> <specN> <tag of thread 3>]
+// with specN > 0 thread 3 calls pop_specific(hint, its tag) specN times (the critical-task stream of an arena: back_nonnull accessor, isolation tags)
 #include "vh_tbb.h"
 #include "tbb/task_stream.h"
 using namespace cosched;
@@ -9,22 +10,25 @@ using vh::rawload;
 struct DummyTask : d1::task { int id; d1::task* execute(d1::execution_data&) override { return nullptr; } d1::task* cancel(d1::execution_data&) override { return nullptr; } };
 static std::map<std::string, std::pair<int, int>> LAB;   // label -> (kind, var)  var: 0 population, 1 mutex of the thread's current lane
 static void L(const char* l, int k, int v) { LAB[l] = {k, v}; }
-int main(int argc, char** argv) {
-    if (argc < 6) return 2;
+template <r1::task_stream_accessor_type ACC> static int run(int argc, char** argv) {
+    int tag[3] = {0, argc > 7 ? atoi(argv[7]) : 0, argc > 8 ? atoi(argv[8]) : 0}; int specn = argc > 9 ? atoi(argv[9]) : 0; int spectag = argc > 10 ? atoi(argv[10]) : 0;
+    L("SP1",K_LOAD,0);L("SP2",K_LOAD,1);L("SP3",K_RMW,1);L("SP5",K_RMW,0);L("SP6",K_RMW,1);L("SPe",K_LOAD,0);
     L("PU1",K_LOAD,1);L("PU2",K_RMW,1);L("PU3",K_RMW,0);L("PU4",K_RMW,1);L("PO1",K_LOAD,0);L("PO2",K_LOAD,0);L("PO3",K_LOAD,1);L("PO4",K_RMW,1);L("PO6",K_RMW,0);L("PO7",K_RMW,1);
     int pushn[3] = {0, atoi(argv[3]), atoi(argv[4])}; int popn = atoi(argv[5]);
     vh::TraceOut TR; TR.open(argv[2]);
     DummyTask tasks[40]; for (int i = 0; i < 40; i++) tasks[i].id = i;
     std::ifstream in(argv[1]); std::string line; long paths = 0, steps = 0, drift = 0, mismatch = 0, stuck = 0, skipped = 0; vh::Timer tm; int shown = 0;
     while (std::getline(in, line) && stuck < 10) {
-        r1::task_stream<r1::front_accessor>* ts = new r1::task_stream<r1::front_accessor>; ts->initialize(2);
+        r1::task_stream<ACC>* ts = new r1::task_stream<ACC>; ts->initialize(2);
         const void* a_pop = &ts->population; const void* a_mtx[2] = {&ts->lanes[0].my_mutex.my_flag, &ts->lanes[1].my_mutex.my_flag};
         untrack_all(); track(a_pop); track(a_mtx[0]); track(a_mtx[1]); focus_only(true);
         TR.begin_exec();
         Sched S; S.stall_limit = 4000;
         S.spawn(4, [&](int id) {
             int self = id + 1; unsigned prev = 0;
-            if (self <= 2) for (int k = 1; k <= pushn[self]; k++) { int t = self * 10 + k; TR.emit("{\"e\":\"Spawn\",\"id\":%d}", t); ts->push(&tasks[t], r1::subsequent_lane_selector(prev)); }
+            if (self <= 2) for (int k = 1; k <= pushn[self]; k++) { int t = self * 10 + k; r1::task_accessor::isolation(tasks[t]) = (r1::isolation_type)tag[self]; TR.emit("{\"e\":\"Spawn\",\"id\":%d}", t); ts->push(&tasks[t], r1::subsequent_lane_selector(prev)); }
+            else if (self == 3 && specn > 0) for (int n = 0; n < specn; n++) { d1::task* t = ts->pop_specific(prev, (r1::isolation_type)spectag);
+                if (t) { int id = static_cast<DummyTask*>(t)->id; TR.emit("{\"e\":\"Got\",\"t\":%d,\"id\":%d}", self, id); if ((int)r1::task_accessor::isolation(*t) != spectag) TR.emit("{\"e\":\"Crash\",\"what\":\"pop_specific returned a task of another isolation\"}"); } }
             else for (int n = 0; n < popn; n++) { d1::task* t = ts->pop(r1::preceding_lane_selector(prev)); if (t) TR.emit("{\"e\":\"Got\",\"t\":%d,\"id\":%d}", self, static_cast<DummyTask*>(t)->id); }
         });
         ++paths; bool drifted = false;
@@ -53,4 +57,8 @@ int main(int argc, char** argv) {
     TR.close();
     printf("{\"paths\":%ld,\"steps\":%ld,\"drift\":%ld,\"state_mismatch\":%ld,\"stuck\":%ld,\"skipped_local\":%ld,\"wall\":%.2f}\n", paths, steps, drift, mismatch, stuck, skipped, tm.s());
     return 0;
+}
+int main(int argc, char** argv) {
+    if (argc < 6) return 2;
+    return argc > 6 && argv[6][0] == 'b' ? run<r1::back_nonnull_accessor>(argc, argv) : run<r1::front_accessor>(argc, argv);
 }
